@@ -58,7 +58,12 @@ def templates(g):
                 [call("owned", ("w", "u8"), call("types", ("w", "i16")))], [call("owned", call("types"))], [call("types")],
                 [("w", "owned"), call("types", ("w", "u8"))], [call("ref", call("types", ("i",)))], [call("owned", ("s",))],
                 [call("owned", call("types", ("w", "u8")), ("w", "i16"))], [("p", "Vec<u8>"), call("types", ("w", "u8"))],
-                [call("ref_mut", call("types", ("p", "Vec<u8>")))], [call("bogus", ("w", "u8"))], [("w", "ref"), call("bogus", call("types", ("w", "u8")))]]
+                [call("ref_mut", call("types", ("p", "Vec<u8>")))], [call("bogus", ("w", "u8"))], [("w", "ref"), call("bogus", call("types", ("w", "u8")))],
+                # the same reference kind twice in one attribute, typed and bare in either order (seed C08-k): the bare keyword
+                # adds the conversion into the field types whatever was listed before it
+                [call("owned", ("w", "u8")), ("w", "owned")], [("w", "owned"), call("owned", ("w", "u8"))], [call("ref", ("w", "u8")), ("w", "ref")],
+                [("w", "ref"), call("ref", ("w", "u8"))], [call("ref", ("w", "u8")), call("ref", ("w", "i16"))], [call("ref_mut"), ("w", "ref_mut")],
+                [call("owned", ("w", "u8")), ("w", "ref"), ("w", "owned")], [call("owned"), call("owned", ("w", "u8"))]]
     return out
 
 
